@@ -85,6 +85,32 @@ func ruleBatchTimer(c *Ctx, r *R) {
 			}
 		}
 	}
+	// the hand-over written with a module helper: chans.SendContext(bgCtx, out.batchC, batch)
+	batchSendCall := func(in ssa.Instruction) (*ssa.Call, ssa.Value) {
+		call, ok := in.(*ssa.Call)
+		if !ok {
+			return nil, nil
+		}
+		cal := staticCallee(&call.Call)
+		if cal == nil || !ctxBlockingHelper(c, origin(cal)) || len(call.Call.Args) < 3 {
+			return nil, nil
+		}
+		for ai, a := range call.Call.Args {
+			if fieldOfChan(a) == "batchC" && ai+1 < len(call.Call.Args) {
+				return call, call.Call.Args[ai+1]
+			}
+		}
+		return nil, nil
+	}
+	if !batchCell.ok() {
+		for _, g := range bi.all {
+			instrs(g, func(_ *ssa.BasicBlock, _ int, in ssa.Instruction) {
+				if _, v := batchSendCall(in); v != nil {
+					batchCell = loadVar(v)
+				}
+			})
+		}
+	}
 	if !batchCell.ok() || !timerCCell.ok() {
 		r.undecided("stream.BatchFunc|cells", batcher.Pos(), "could not identify the batch / timerC variables")
 		return
@@ -150,6 +176,10 @@ func ruleBatchTimer(c *Ctx, r *R) {
 						return ss(ERR), true
 					}
 				}
+			}
+		case *ssa.Call:
+			if sc, _ := batchSendCall(x); sc != nil && q&1 != 0 {
+				return ss(ERR), true
 			}
 		}
 		return 0, false
@@ -417,7 +447,20 @@ func ruleBatchElapsed(c *Ctx, r *R) {
 					}
 				}
 			}
-			return false
+			// … or through a context-aware send helper of the module (chans.SendContext(bgCtx, out.batchC, batch))
+			res := false
+			instrs(f, func(_ *ssa.BasicBlock, _ int, in ssa.Instruction) {
+				if call, ok := in.(*ssa.Call); ok {
+					if cal := staticCallee(&call.Call); cal != nil && ctxBlockingHelper(c, origin(cal)) {
+						for _, a := range call.Call.Args {
+							if fieldOfChan(a) == "batchC" {
+								res = true
+							}
+						}
+					}
+				}
+			})
+			return res
 		}
 		arms := func(f *ssa.Function) bool {
 			res := false
